@@ -36,7 +36,8 @@ ASSUMPTIONS = [
 ]
 PROBES = ["add_to_unterminated_document", "replace_field_that_has_comments",
           "delete_last_field_of_unterminated_document", "key_given_in_other_case",
-          "failing_op_leaves_document_unchanged", "gc_step", "handles_dropped_and_refetched", "step_without_observation"]
+          "failing_op_leaves_document_unchanged", "gc_step", "handles_dropped_and_refetched", "step_without_observation",
+          "file_object_dropped_paragraph_kept", "set_through_set_field_methods"]
 
 
 def generate(seed, run, tier):
